@@ -1221,6 +1221,48 @@ def x_bounds_cases(tier):
                        "why": f"row {c} of float{n}x{n}", "units": [{"funcs": [], "entry": "f", "inputs": []}]}
 
 
+def x_nested_bounds_cases(tier):
+    """Index chains that run THROUGH an array into its vector / matrix elements, through a struct field, through an array of
+    structs: every position of the chain gets every constant around its range, the other positions are 0 or dynamic."""
+    structs = "struct XS { int[3] fa; float4 fv; float3x3 fm; float2[2] fav; }\n"
+    # (name, declaration type, prefix written before the chain, sizes per index position, (infix after position k) , element zero, storages)
+    shapes = [
+        ("array-of-vector", "float3[2]", "g", [2, 3], {}, ("global", "local")),
+        ("array2-of-vector", "float2[2][2]", "g", [2, 2, 2], {}, ("global", "local")),
+        ("array-of-int-vector", "int4[3]", "g", [3, 4], {}, ("global", "local")),
+        ("array-of-matrix", "float3x3[2]", "g", [2, 3, 3], {}, ("global", "local")),
+        ("array-of-matrix4", "float4x4[1]", "g", [1, 4, 4], {}, ("global",)),
+        ("struct-array-field", "XS", "g.fa", [3], {}, ("global", "local")),
+        ("struct-vector-field", "XS", "g.fv", [4], {}, ("global", "local")),
+        ("struct-matrix-field", "XS", "g.fm", [3, 3], {}, ("global", "local")),
+        ("struct-array-of-vector-field", "XS", "g.fav", [2, 2], {}, ("global", "local")),
+        ("array-of-struct-array-field", "XS[2]", "g", [2, 3], {0: ".fa"}, ("global",)),
+        ("array-of-struct-matrix-field", "XS[2]", "g", [2, 3, 3], {0: ".fm"}, ("global",)),
+        ("array-of-struct-vector-field", "XS[3]", "g", [3, 4], {0: ".fv"}, ("global",)),
+    ]
+    for name, tdecl, prefix, sizes, infix, storages in shapes:
+        et = "int" if ("int" in tdecl or ".fa" in prefix or infix.get(0) == ".fa") and "fav" not in prefix else "float"
+        zero = "0" if et == "int" else "0.0"
+        for storage in storages:
+            for k in range(len(sizes)):
+                for others in ("const", "dyn"):
+                    if others == "dyn" and len(sizes) == 1:
+                        continue
+                    for c in (-2, -1, 0, sizes[k] - 1, sizes[k], sizes[k] + 1, 7):
+                        for rw in ("read", "write"):
+                            chain = prefix
+                            for j in range(len(sizes)):
+                                chain += "[" + (str(c) if j == k else ("0" if others == "const" else "i")) + "]" + infix.get(j, "")
+                            ok = 0 <= c < sizes[k]
+                            gdecl = f"{tdecl} g;\n" if storage == "global" else ""
+                            ldecl = f"{tdecl} g; " if storage == "local" else ""
+                            body = f"{ldecl}return {chain};" if rw == "read" else f"{ldecl}{chain} = {zero}; return {zero};"
+                            src = structs + f"{gdecl}export function f(int i) -> {et} {{ {body} }}\n"
+                            yield {"fam": "X", "expect": "accept" if ok else "reject", "src": src,
+                                   "desc": f"bounds;{name};pos={k}of{len(sizes)};{others};{'in' if ok else ('below' if c < 0 else 'above')}-range;{rw};{storage}",
+                                   "why": f"constant {c} at position {k} of {chain} ({tdecl})", "units": [{"funcs": [], "entry": "f", "inputs": []}]}
+
+
 def x_indextype_cases(tier):
     exprs = [("int-literal", "1", True), ("int-var", "i", True), ("uint-var", "u", True), ("int-expr", "i + 1", True), ("uint-expr", "u + u", True),
              ("float-literal", "1.0", False), ("float-var", "x", False), ("float-expr", "i * 0.5", False), ("int2-var", "w", False),
@@ -1283,6 +1325,7 @@ def x_mask_cases(tier):
 @family("X")
 def fam_X(tier):
     yield from x_bounds_cases(tier)
+    yield from x_nested_bounds_cases(tier)
     yield from x_indextype_cases(tier)
     yield from x_mask_cases(tier)
 
@@ -2254,6 +2297,14 @@ W_OUTSIDE = [
     ("return-value-in-void", "export function f(int a) -> void { return a; }"),
     ("store-float-to-int-parameter", "export function f(int a, float x) -> int { a = x; return a; }"),
     ("store-int-to-float-parameter", "export function f(int a, float x) -> float { x = a; return x * 0.5; }"),
+    # a function with a result whose body never returns, alone / after / before functions that do return
+    ("no-return;alone", "export function f(int a) -> int { a = a + 1; }"),
+    ("no-return;empty-body", "export function f(int a) -> float { }"),
+    ("no-return;after-returning-function", "export function g(int a) -> int { return a; }\nexport function f(int a) -> int { a = a + 1; }"),
+    ("no-return;before-returning-function", "export function f(int a) -> int { a = a + 1; }\nexport function g(int a) -> int { return a; }"),
+    ("no-return;after-void-function-with-return", "export function g(int a) -> void { return; }\nexport function f(int a) -> float { }"),
+    ("no-return;between-returning-functions", "export function g(int a) -> int { return a; }\nexport function f(int a) -> int { a = a + 1; }\nexport function h(float x) -> float { return x; }"),
+    ("void-falls-off;after-returning-function", "export function g(int a) -> int { return a; }\nexport function f(int a) -> void { a = a + 1; }"),
 ] + [
     # ++/-- on int and float variables: the constant 1 the lowering adds has to be emitted in the operand's own encoding
     (f"affix;{T};{form.format(v='v')};{storage};{ret}",
